@@ -3,6 +3,7 @@
   Helper lemmas: Lemmas/Leaves.lean (reference order `leavesOf`, homomorphism lemma), Lemmas/Sort.lean.
 -/
 import OptreeModel.Lemmas.Leaves
+import OptreeModel.Lemmas.SortCanon
 
 namespace Optree
 
@@ -132,5 +133,112 @@ example : totalOrderSort [.str "b", .int 3, .str "a", .int 1] = [.int 1, .int 3,
 example :
     totalOrderSort [.obj "vk.KU" false 0 1, .int 3, .obj "vk.KU" false 0 2, .int 1] =
       [.obj "vk.KU" false 0 1, .int 3, .obj "vk.KU" false 0 2, .int 1] := by decide
+
+end Optree
+
+namespace Optree
+
+/-! ### the insertion order of a dict with sortable keys is irrelevant -/
+
+theorem Key.comparable_symm (a b : Key) : Key.comparable a b = Key.comparable b a := by
+  cases a <;> cases b <;> simp [Key.comparable, Key.lt?]
+  rename_i t1 o1 r1 u1 t2 o2 r2 u2
+  cases o1 <;> cases o2 <;> simp [Key.lt?]
+  by_cases h : t1 = t2
+  · subst h; simp
+  · have h' : ¬ t2 = t1 := fun e => h e.symm
+    simp [h, h']
+
+/-- **Sorting is canonical.**  If the keys are pairwise distinct and `<` is a strict total order on
+them (ints, strings, tuples of ints, objects of one orderable class with distinct ranks, …), every
+insertion order of the same key set sorts to the same list. -/
+theorem C02_sort_canonical (ks ks' : List Key) (hp : ks.Perm ks') (hnd : ks.Nodup)
+    (hto : StrictTotalOn Key.ltD ks) : totalOrderSort ks = totalOrderSort ks' := by
+  unfold totalOrderSort totalOrderSortOn
+  simp only [List.map_id]
+  have hs : stage1Ok ks' = stage1Ok ks :=
+    (allPairs_perm Key.comparable Key.comparable_symm ks ks' hnd hp).symm
+  have hs2 : stage2Ok ks' = stage2Ok ks := by
+    unfold stage2Ok
+    refine (allPairs_perm _ ?_ ks ks' hnd hp).symm
+    intro a b
+    rw [Key.comparable_symm a b]
+    by_cases h : a.tag = b.tag
+    · rw [h]
+    · have h' : ¬ b.tag = a.tag := fun e => h e.symm
+      have e1 : (a.tag != b.tag) = true := by simp [h]
+      have e2 : (b.tag != a.tag) = true := by simp [h']
+      rw [e1, e2]
+  rw [hs, hs2]
+  split
+  · exact sortBy_canonical _ ks ks' hto hp hnd
+  · split
+    · rename_i h1 h2
+      -- a strict total order for `<` makes every pair comparable: stage 1 cannot have failed
+      exfalso
+      apply h1
+      unfold stage1Ok
+      rw [allPairs_iff_mem Key.comparable Key.comparable_symm ks hnd]
+      intro a ha b hb hne
+      rcases hto.total a ha b hb hne with h | h
+      · simp only [Key.ltD] at h
+        unfold Key.comparable
+        cases hl : Key.lt? a b <;> simp_all
+      · rw [Key.comparable_symm]
+        simp only [Key.ltD] at h
+        unfold Key.comparable
+        cases hl : Key.lt? b a <;> simp_all
+    · rename_i h1 _
+      exfalso
+      apply h1
+      unfold stage1Ok
+      rw [allPairs_iff_mem Key.comparable Key.comparable_symm ks hnd]
+      intro a ha b hb hne
+      rcases hto.total a ha b hb hne with h | h
+      · simp only [Key.ltD] at h
+        unfold Key.comparable
+        cases hl : Key.lt? a b <;> simp_all
+      · rw [Key.comparable_symm]
+        simp only [Key.ltD] at h
+        unfold Key.comparable
+        cases hl : Key.lt? b a <;> simp_all
+
+/-- integer keys are always totally ordered -/
+theorem intKeys_strictTotal (is : List Int) : StrictTotalOn Key.ltD (is.map Key.int) := by
+  refine ⟨?_, ?_, ?_⟩
+  · intro a ha
+    simp only [List.mem_map] at ha
+    obtain ⟨i, _, rfl⟩ := ha
+    simp [Key.ltD, Key.lt?]
+  · intro a ha b hb c hc
+    simp only [List.mem_map] at ha hb hc
+    obtain ⟨i, _, rfl⟩ := ha
+    obtain ⟨j, _, rfl⟩ := hb
+    obtain ⟨k, _, rfl⟩ := hc
+    simp only [Key.ltD, Key.lt?, Option.getD_some, decide_eq_true_eq]
+    omega
+  · intro a ha b hb hne
+    simp only [List.mem_map] at ha hb
+    obtain ⟨i, _, rfl⟩ := ha
+    obtain ⟨j, _, rfl⟩ := hb
+    simp only [Key.ltD, Key.lt?, Option.getD_some, decide_eq_true_eq]
+    have : i ≠ j := fun e => hne (by rw [e])
+    omega
+
+/-- a dict with integer keys is flattened in the same order whatever its insertion order -/
+theorem C02_int_keys_canonical (is is' : List Int) (hp : is.Perm is') (hnd : is.Nodup) :
+    totalOrderSort (is.map Key.int) = totalOrderSort (is'.map Key.int) := by
+  apply C02_sort_canonical _ _ (hp.map _) _ (intKeys_strictTotal is)
+  clear hp
+  induction is with
+  | nil => simp
+  | cons i is ih =>
+    simp only [List.nodup_cons, List.map_cons, List.mem_map, not_exists, not_and] at hnd ⊢
+    refine ⟨?_, ih hnd.2⟩
+    intro j hj e
+    injection e with e
+    exact hnd.1 (e ▸ hj)
+
+example : totalOrderSort [.int 3, .int (-1), .int 2] = totalOrderSort [.int 2, .int 3, .int (-1)] := by decide
 
 end Optree
